@@ -98,6 +98,10 @@ def gen_points(rng, m, ant, n):
         o = c + d * (ext * rng.uniform(0.1, 1.6) + segmax * rng.uniform(1, 4))
         if ant['ground']:
             o[2] = abs(o[2]) + 0.2 * segmax
+            if tries % 4 == 1:
+                o[2] = 0.0            # a field point on the ground plane itself (field maps at ground level)
+        elif tries % 7 == 2:
+            o[rng.randrange(3)] = 0.0  # exactly on a coordinate plane
         if min_distance(m, o, ant['ground']) >= segmax * 1.05:
             out.append([float(x) for x in o])
     return out
